@@ -2,6 +2,14 @@
 """Regenerate the seeded-change table of DESIGN.md section 10 from /verif/seeded/*/meta.json."""
 import json, glob, os, re
 NOTES = {
+ "C21b-clone-drops-nact": "missed at first by C21/C12/C08: no moot frame carried a negated `let` guard; clone-guards family added to C12/C07",
+ "C19b-gulp-drops-falsy": "missed at first: deck ops never queued falsy non-None elements; added with type-strict comparison",
+ "C17b-int-base0": "missed at first: no leading-zero decimal whose hex reading differs; 010/012/0100... and 0b/0o tokens added",
+ "C13b-newtag-prefix-count": "missed at first by C13 (C12 caught it): insular clones of two moots with prefix-related names and prefix-creating renamings added",
+ "C31b-makeparser-unconditional": "missed at first: requests always reached the server whole; request-side fragmentation across service passes added",
+ "C32b-linetoolong-args-swapped": "missed at first: no line ever exceeded a parser limit; oversize family added",
+ "C27b-stack-refresh-every-call": "missed at first: the good phase began with a +T jump; steady variant (T/4 steps, early cut-off) added",
+
  "C11b-clocks-restart-in-reactivate": "missed at first by C11 (no conditional aux in the clock families; C07 caught it); clocks+conditional-aux family added to C11",
 
  "C05b-resuspend-skips-main": "missed at first by the quick tier (two conditional auxes on one frame were thorough-only); a same-frame two-aux subset is now in quick C05/C10/C07",
